@@ -133,14 +133,19 @@ def same_digit_cast_rows(K):
                         lo, hi = (-(1 << (sw - 1)), (1 << (sw - 1)) - 1) if Sn in SIGNED else (0, (1 << sw) - 1)
                         v = {"zero": 0, "one": 1, "neg1": -1 if Sn in SIGNED else hi, "hi": hi, "lo": lo, "mid": 0x1234567 % (hi + 1),
                              "top": 1 << (sw - 2), "negmid": -(0x7654321 % (hi + 1)) if Sn in SIGNED else hi - 5,
-                             "alt": int("a5" * (sw // 8), 16) & ((1 << sw) - 1)}[kind]
+                             "alt": int("a5" * (sw // 8), 16) & ((1 << sw) - 1),
+                             # machine-word boundaries (where a "fits in one word" shortcut would go wrong)
+                             "b31": 1 << 31, "b32m1": (1 << 32) - 1, "b63": 1 << 63, "b64m1": (1 << 64) - 1, "b64": 1 << 64,
+                             "b127": 1 << 127, "b128m1": (1 << 128) - 1, "nb63": -(1 << 63), "nb63m1": -(1 << 63) - 1,
+                             "nb127": -(1 << 127), "nb127m1": -(1 << 127) - 1}[kind]
                         v = min(max(v, lo), hi) if kind != "alt" else v
                         return {0: W.wrap(Sn, v, W.m)}
 
                     def exp_fn(W, env):
                         return ("val", W.wrap(Tn, env[0].v))
                     return (kind, env_fn, exp_fn)
-                reps = [mk(k) for k in ("zero", "one", "neg1", "hi", "lo", "mid", "top", "negmid", "alt")]
+                reps = [mk(k) for k in ("zero", "one", "neg1", "hi", "lo", "mid", "top", "negmid", "alt",
+                                        "b31", "b32m1", "b63", "b64m1", "b64", "b127", "b128m1", "nb63", "nb63m1", "nb127", "nb127m1")]
                 old = core.WORLDS_FOR
                 if DB[Tn] == DB[Sn]:
                     pairs = [(2, 1), (2, 3), (3, 2), (1, 2), (3, 3), (2, 2), (4, 1), (1, 4)]
